@@ -90,6 +90,7 @@ fn full_inline_texts() -> Vec<Vec<u8>> {
 pub fn run_directed(name: &str, rng: &mut Rng, n: usize, sink: &mut Sink) -> bool {
     match name {
         "tour" => tour(rng, n, sink),
+        "edges" => edges(rng, n, sink),
         "ladder" => ladder(rng, n, sink),
         "faultsweep" => faultsweep(rng, n, sink),
         "sizes" => sizes(rng, n, sink),
@@ -116,6 +117,82 @@ pub fn run_directed(name: &str, rng: &mut Rng, n: usize, sink: &mut Sink) -> boo
         _ => return false,
     }
     true
+}
+
+// ------------------------------------------------------------------------------------------ C01 … C13
+/// Histories a random generator rarely produces: exact lengths and capacities (15/16/17, powers of two, capacity ==
+/// length), degenerate arguments (`reserve(0)`, `shrink_to(usize::MAX)`, `truncate(len)`, `insert_str(len, "")`), and
+/// each of them in every storage history (fresh, static, static cut to exactly 16, shared by three handles of three
+/// lengths, emptied heap, `with_capacity(0/16/17)`).
+fn edges(rng: &mut Rng, n: usize, sink: &mut Sink) {
+    let t15 = "0123456789abcdé"; // 16 bytes: 14 ASCII + a 2-byte character
+    let t16 = "0123456789abcdef";
+    let t17 = "0123456789abcdefg";
+    let t17m = "0123456789abcde€"; // 18 bytes ending in a 3-byte character
+    let setups: Vec<Vec<String>> = vec![
+        vec!["new 0".into()],
+        vec![format!("from 0 {}", h(t15))],
+        vec![format!("from 0 {}", h(t16))],
+        vec![format!("from 0 {}", h(t17))],
+        vec![format!("from 0 {}", h(t17m))],
+        vec![format!("from 0 {}", h(T20))],
+        vec!["from_static 0 5".into()],                              // exactly 16 bytes of static text (stored inline)
+        vec!["from_static 0 6".into()],                              // 17+1 bytes
+        vec!["from_static 0 2".into(), "truncate 0 16".into()],      // a static cut to exactly 16
+        vec!["from_static 0 1".into(), "truncate 0 17".into()],
+        vec!["from_static 0 0".into(), "pop 0".into()],              // 17 -> 16 by pop
+        vec!["with_capacity 0 0".into()],
+        vec!["with_capacity 0 16".into()],
+        vec!["with_capacity 0 17".into()],
+        vec!["with_capacity 0 32".into(), format!("push_str 0 {}", h(t16))],
+        vec!["with_capacity 0 64".into(), format!("push_str 0 {}", h(T20)), "clone 1 0".into(), "clone 2 0".into(), "truncate 1 5".into(), "pop 2".into()],
+        vec![format!("from 0 {}", h(T20)), "clone 1 0".into(), "truncate 0 16".into()],
+        vec![format!("from 0 {}", h(T20)), "clone 1 0".into(), "truncate 0 17".into(), "drop 1".into()],
+        vec![format!("from 0 {}", h(T20)), "clear 0".into()],
+        vec![format!("from 0 {}", h(t17)), "pop 0".into()],          // heap text of exactly 16 bytes
+        vec![format!("from 0 {}", h("ab")), "pop 0".into(), "pop 0".into()],
+        vec![format!("from 0 {}", h(T20)), "reserve 0 44".into()],    // capacity 64: a power of two
+        vec![format!("from 0 {}", h(T20)), "shrink_to_fit 0".into()], // capacity == length
+    ];
+    let big = usize::MAX;
+    for rounds in 0..n.max(1) {
+        for setup in &setups {
+            let cur_len = |sink: &mut Sink| sink.ex.observe(0).map(|o| o.len).unwrap_or(0);
+            let probes: Vec<Box<dyn Fn(usize) -> Vec<String>>> = vec![
+                Box::new(|_| vec!["reserve 0 0".into(), "push 0 61".into()]),
+                Box::new(|_| vec!["reserve 0 1".into(), "push 0 61".into()]),
+                Box::new(move |_| vec![format!("try_reserve 0 {big}"), "push 0 61".into()]),
+                Box::new(move |_| vec![format!("shrink_to 0 {big}"), "push 0 61".into()]),
+                Box::new(|_| vec!["shrink_to 0 0".into(), "push 0 61".into()]),
+                Box::new(|_| vec!["shrink_to 0 16".into(), "shrink_to 0 17".into(), "push 0 61".into()]),
+                Box::new(|l| vec![format!("truncate 0 {l}"), "push 0 61".into()]),
+                Box::new(|l| vec![format!("try_truncate 0 {}", l + 1), "push 0 61".into()]),
+                Box::new(|l| vec![format!("insert_str 0 {l} -"), format!("insert_str 0 0 -"), "push 0 61".into()]),
+                Box::new(|l| vec![format!("insert_str 0 {l} {}", h("€")), "pop 0".into()]),
+                Box::new(|_| vec!["insert 0 0 c3a9".into(), "remove 0 0".into()]),
+                Box::new(|_| vec!["pop 0".into(), "push 0 f09d849e".into()]),
+                Box::new(|_| vec!["clear 0".into(), "shrink_to_fit 0".into(), "push 0 61".into()]),
+                Box::new(|_| vec!["clear 0".into(), "push 0 61".into(), "shrink_to_fit 0".into()]),
+                Box::new(|_| vec!["retain 0 T".into(), "push 0 61".into()]),
+                Box::new(|_| vec!["retain 0 F".into(), "push 0 61".into()]),
+                Box::new(|_| vec!["clone 3 0".into(), "push 0 61".into(), "push 3 62".into()]),
+                Box::new(|_| vec!["clone 3 0".into(), "clone_from 0 3".into(), "push 0 61".into()]),
+                Box::new(|_| vec!["add 0 -".into(), "add_assign 0 -".into(), "push_str 0 -".into(), "extend_strs 0 -".into(), "push 0 61".into()]),
+                Box::new(|_| vec!["push 0 61".into(), "push 0 c3a9".into(), "push 0 e282ac".into(), "push 0 f09d849e".into()]),
+            ];
+            for (pi, probe) in probes.iter().enumerate() {
+                if n < 2 && (pi + rounds + setup.len()) % 2 == 1 && rng.chance(0) {
+                    continue;
+                }
+                sink.line("reset");
+                sink.lines(setup);
+                let l = cur_len(sink);
+                for line in probe(l) {
+                    sink.line(&line);
+                }
+            }
+        }
+    }
 }
 
 // ------------------------------------------------------------------------------------------ C01
